@@ -399,6 +399,29 @@ func (r c17Result) abnormal() bool {
 	return r.exit != "" || r.timed || r.deadlock != "" || r.buildErr != "" || r.skipped != ""
 }
 
+// c17PackageDoesNotCompile: the go command reports compile errors per package ("# import/path" followed by file:line
+// diagnostics); errors under the heading of the module under test (or of one of its internal packages) are the package's.
+func c17PackageDoesNotCompile(out string) bool {
+	inPkg := false
+
+	for _, ln := range strings.Split(out, "\n") {
+		ln = strings.TrimSpace(ln)
+
+		if i := strings.Index(ln, "# "); i >= 0 && (i == 0 || strings.HasSuffix(ln[:i], ": ")) {
+			h := ln[i:]
+			inPkg = strings.HasPrefix(h, "# "+mon.ModulePath) && !strings.Contains(h, "zz_verif")
+
+			continue
+		}
+
+		if inPkg && strings.Contains(ln, ".go:") {
+			return true
+		}
+	}
+
+	return false
+}
+
 // c17Values extracts the R<i>=<value> lines (the builtin print writes them to stderr).
 func c17Values(s string) string {
 	var out []string
@@ -707,6 +730,19 @@ func c17Parent(p *mon.Prop, pc *mon.ParentCtx) *mon.Aggregate {
 		case r.skipped != "":
 			perVariant[v.Name] = "skipped: " + r.skipped
 			agg.Counters["programs-skipped-not-executable"]++
+
+			continue
+		case r.buildErr != "" && c17PackageDoesNotCompile(r.buildErr):
+			// the program is a dozen lines that compile in every other configuration; what fails to compile here is the
+			// package under test itself, in one of its supported build configurations
+			perVariant[v.Name] = "FAILED: the package does not compile"
+			agg.ViolCount++
+			agg.Violations = append(agg.Violations, mon.Violation{
+				Property: p.ID,
+				What:     fmt.Sprintf("a program importing the package cannot be built in configuration %q (flags %v, build environment %v): the package itself does not compile: %s", v.Name, v.Flags, v.Env, mon.Trunc(r.buildErr, 600)),
+				Key:      "package-does-not-compile:" + v.Name,
+				Case:     map[string]any{"variant": v.Name},
+			})
 
 			continue
 		case r.buildErr != "":
